@@ -27,6 +27,8 @@ STMT_FORMS = [
     "DISPLAY(zz)",
 ]
 BINOPS = ["+", "-", "*", "/", "MOD", "==", "!=", "<", "<=", ">", ">="]
+BOUNDARY7 = ["0", "1", "2", R.BIG, '"a,b"', "l", "m"]
+BOUNDARY10 = BOUNDARY7 + ["NULL", "-1", '"é"']
 
 STATEFUL = [
     "FOR EACH x IN l { REMOVE(l, 1) }\nDISPLAY(l)",
@@ -56,6 +58,7 @@ STATEFUL = [
 
 class PROP(PropCheck):
     id = "C10"
+    mismatch_is_failure = False
     theorems = ["C10_run_no_panic", "C10_fresh_state_ok", "C10_parse_prog_ok", "C10_lib_total", "C10_exit_only_from_move"]
     allowed_axioms = ("FloatAxioms.leb_spec", "leb_spec", "FloatAxioms.Prim2SF_valid", "Prim2SF_valid")
     coq_imports = ["Obs"]
@@ -95,6 +98,12 @@ class PROP(PropCheck):
             else:
                 k = (14 if quick else 120) * scale
                 combos = [tuple(rng.choice(R.POOL) for _ in range(n)) for _ in range(k)]
+            # boundary values crossed exhaustively (crashes hide where two boundary arguments meet: an in-range start with a
+            # huge length, an index with an aliased list, ...)
+            if n == 2:
+                combos += list(itertools.product(BOUNDARY10, repeat=2))
+            elif n == 3:
+                combos += list(itertools.product(BOUNDARY7 if quick else BOUNDARY10, repeat=3))
             # wrong argument counts too
             combos += [tuple(rng.choice(R.POOL) for _ in range(n + 1))]
             if n:
